@@ -160,6 +160,13 @@ def update_rows(prog: Program) -> Dict[str, Any]:
             if isinstance(o, SObj) and o.meta.get("item_of") is not None and isinstance(o.meta["item_of"][0], SDict):
                 r.prev_obj = o
                 r.prev_kinds = frozenset(o.kinds)
+        if r.seen is None and r.prev_obj is not None:
+            # `prev = attrz.get(nm)` ... `if prev is not None:` instead of `if nm in attrz:`
+            for atom, val in l.atoms:
+                if isinstance(atom, tuple) and atom[0] == "is" and atom[1] == r.prev_obj.uid and atom[2] == "NONE":
+                    r.seen = not str(val).startswith("is None")
+            if r.seen is False:
+                r.prev_kinds = None
         rows.append(r)
     if not rows:
         raise Unmodelled("TagAttrDict.update: item loop produced no paths")
